@@ -19,8 +19,9 @@ from ..ref import automaton as dfa
 
 ID = "C01"
 RULE = (
-    "exhaustive: all sequences over the ten step kinds of length 1..4 (quick) / 1..5 (thorough), each in two naming "
-    "styles (repeated kinds suffixed from the 2nd occurrence; every step suffixed), default valid parameters, stub "
+    "exhaustive: all sequences over the ten step kinds of length 1..4 (quick) / 1..5 (thorough), each in three naming "
+    "styles (repeated kinds suffixed from the 2nd occurrence; every step suffixed; every step suffixed with text that spells "
+    "another step kind), default valid parameters, stub "
     "plugins for optimization / semantic_segmentation; non-trivial = >= 3 steps and accepted by the DFA or one edit "
     "away from an accepted sequence. pipelines: generated legal pipelines with random parameters / suffixes / stubs / "
     "1-3 scales and a generated history of 2-5 check/run calls on one machine, plus one single-edit mutant each; "
@@ -47,8 +48,12 @@ def name_style(kinds, style):
             n = seen.get(k, 0)
             names.append(k if n == 0 else f"{k}.{n}")
             seen[k] = n + 1
-        else:
+        elif style == 1:
             names.append(f"{k}.s{i}")
+        else:
+            # free text that happens to spell another step kind: the part before the dot alone decides the kind
+            other = dfa.KINDS[(dfa.KINDS.index(k) + 1 + i) % len(dfa.KINDS)]
+            names.append(f"{k}.{other}_{i}")
     return names
 
 
@@ -72,7 +77,7 @@ def enumerate_sequences(tier, shard, nshards):
     n = 0
     for length in range(1, maxlen + 1):
         for kinds in itertools.product(dfa.KINDS, repeat=length):
-            for style in (0, 1):
+            for style in (0, 1, 2):
                 if n % nshards == shard:
                     yield {"kinds": list(kinds), "style": style}
                 n += 1
@@ -158,10 +163,12 @@ def pipeline_cases(draw):
             ms["num_scales"] = ns
         steps.insert(pos, ["multiscale", ms])
     # any step may carry a suffix, also when it occurs once
-    if draw(st.integers(0, 3)) == 0:
+    for _ in range(draw(st.sampled_from([0, 0, 1, 1, 2]))):
         i = draw(st.integers(0, len(steps) - 1))
         if "." not in steps[i][0]:
-            steps[i][0] = steps[i][0] + ".only"
+            # free text, also text that spells another step kind (only the part before the dot names the kind)
+            steps[i][0] = steps[i][0] + draw(st.sampled_from([".only", ".validation", ".before_validation", ".multiscale",
+                                                              ".no_filter", ".matching_cost_2"]))
     ops = ["check"] + draw(st.lists(st.sampled_from(["check", "run", "run", "check_perm", "check_sub"]), min_size=1, max_size=4))
     perm_seed = draw(st.integers(0, 1000))
     edit = draw(st.sampled_from(["swap", "delete", "duplicate", "insert"]))
